@@ -538,6 +538,7 @@ RAW_READERS = {
 }
 
 
+RAW_MUTATORS_ = {"resize", "write_direct", "write_direct_chunk", "__setitem__", "__delitem__", "create_group", "create_dataset", "require_group", "require_dataset", "move", "copy", "clear", "pop", "update", "modify", "create", "flush", "make_scale"}
 NODE_CLASSES_ = ("IH5Group", "IH5Dataset", "IH5AttributeManager")
 # functions that create the node in the newest container and may therefore hand out a handle bound to the newest index
 CREATORS = {"IH5Group.create_group", "IH5Group.create_dataset", "IH5Group.require_group", "IH5Group.require_dataset"}
@@ -609,6 +610,27 @@ def r8_resolution_owner(P, rep, ctx):
         tail = q[len(O) + 1:]
         owner = tail.split(".<locals>.")[0]
         ok = owner in RAW_READERS or owner.split(".")[-1] in RAW_READERS
+        if not ok and fi.cls is not None and fi.cls.name == "IH5Dataset":
+            # a dataset handle is bound to the container that holds its value: reading the raw dataset at the handle's own
+            # (index, path) is the value pass-through that ndim / __getitem__ do; nothing else is looked at, nothing written
+            par_ = {}
+            for p_ in ast.walk(fi.node):
+                for ch in ast.iter_child_nodes(p_):
+                    par_[id(ch)] = p_
+
+            def own_value(a) -> bool:
+                s1 = par_.get(id(a))
+                s2 = par_.get(id(s1)) if s1 is not None else None
+                up = par_.get(id(s2)) if s2 is not None else None
+                if not (isinstance(s1, ast.Subscript) and s1.value is a and norm(s1.slice) == "self._cidx" and isinstance(s2, ast.Subscript) and s2.value is s1 and norm(s2.slice) == "self._gpath" and isinstance(s2.ctx, ast.Load)):
+                    return False
+                if isinstance(up, ast.Attribute) and up.value is s2 and isinstance(par_.get(id(up)), ast.Call) and par_[id(up)].func is up and up.attr in RAW_MUTATORS_:
+                    return False
+                if isinstance(up, ast.Subscript) and up.value is s2 and isinstance(up.ctx, (ast.Store, ast.Del)):
+                    return False
+                return True
+
+            ok = all(norm(a.value) == "self" and own_value(a) for a in acc)
         rep.check(ok, "C01.R8", fi.qual, f"raw container access only in a resolution primitive / writer: {owner}", fi.loc(acc[0]), construct=f"raw container access in {owner}",
                   message=f"{fi.qual} looks into the raw containers itself ({norm(acc[0])}...) instead of resolving through _node_seq/_children: deletions and substitutions of ancestors in newer containers are not applied (a node below a deleted or replaced group is still found)")
     if n < 10:
